@@ -15,24 +15,35 @@ package sqlx
 //
 // ops:  new <k> <s>     inserter k := NewBulkInserter(conn_k, stmts[s])   obs: ok pre=… suf=… fmt=…  | err
 //       ins <k> <n>     n rows on inserter k (row values are consecutive numbers, global)   obs: ok | err
-//       flush <k> | upd <k>      BulkInserter.Flush / UpdateOrDelete        obs: ok
+//       flush <k> | upd <k>      BulkInserter.Flush / UpdateOrDelete        obs: ok c=<rows pending in the inserter
+//                                when Flush has returned / when the fn of UpdateOrDelete runs; -1 = fn was not called>
 //       stmt <k> <s>    executor.Wait(); UpdateStmt(stmts[s])               obs: ok pre=… suf=… | err
 //       hand <k>        SetResultHandler(counting handler)                  obs: ok
+//       handp <k>       SetResultHandler(counting handler that PANICS with an error value after counting)
+//       unhand <k>      SetResultHandler(nil)
+//       mode <k> <m>    outcome of conn_k.Exec from now on: 0 = ok, 1 = returns an error, 2 = panics (after the harness
+//                       has recorded the statement); waits for the executor first                 obs: ok
+//       insx <k>        Insert with TWO arguments for the one placeholder: must be rejected, nothing is added   obs: err
 //       gate <k> | open <k>      block / unblock conn_k.Exec (open also joins the helper)      obs: ok
 //       insbg <k> <n>   helper goroutine inserts n rows; returns when it is done or its Add has handed a batch over
 //       wait <k>        executor.Wait()
 //                       obs: x=<hash>|<prefix>|<rows>|<suffix> … (one per Exec since the last wait, sorted by first
-//                            row; spaces are '_'; rows compressed a~b)  res=<result-handler calls> bad=<unparsable>
+//                            row; spaces are '_'; rows compressed a~b)  res=<result-handler calls>
+//                            rerr=<result-handler calls that were given a non-nil error> bad=<unparsable>
 // (`-` stands for an empty string)
 
 import (
 	"database/sql"
+	"errors"
 	"fmt"
+	"runtime"
 	"sort"
 	"strconv"
 	"strings"
 	"sync"
+	"sync/atomic"
 	"testing"
+	"time"
 
 	"github.com/zeromicro/go-zero/core/executors"
 	"github.com/zeromicro/go-zero/core/logx"
@@ -137,6 +148,9 @@ type c11sInst struct {
 	execs  []c11sExec
 	bad    int
 	res    int
+	rerr   int
+	mode   int // outcome of Exec: 0 ok, 1 error, 2 panic
+	conn   *mockedConn
 	gate   chan struct{} // non-nil: Exec blocks until it is closed
 	helper chan struct{} // non-nil: a helper goroutine is inserting
 	handed chan struct{} // the hook container signals a non-empty RemoveAll inside AddTask's critical section
@@ -162,6 +176,80 @@ func (h *c11sHook) RemoveAll() any {
 	return v
 }
 
+// ---- watchdog of the sequential harness: an operation of the public API that does not come back.
+// No operation of this harness blocks on the unchanged tree. If one has not returned after a grace period and every
+// goroutine of the package is parked in several consecutive goroutine dumps (nothing running, nothing runnable: a
+// starved machine shows runnable goroutines and is waited for), the executor is wedged: the observation is `stuck`,
+// and every later operation of the run returns `stuck` at once (the hung goroutine is left behind).
+
+var c11sWedged atomic.Bool
+
+func c11sAllParked() bool {
+	buf := make([]byte, 1<<18)
+	n := runtime.Stack(buf, true)
+	for _, blk := range strings.Split(string(buf[:n]), "\n\n") {
+		if !strings.HasPrefix(blk, "goroutine ") || !strings.Contains(blk, "go-zero/core/") {
+			continue
+		}
+		nl := strings.IndexByte(blk, '\n')
+		if nl < 0 {
+			continue
+		}
+		hdr := blk[:nl]
+		if strings.Contains(blk, "c11sAllParked") {
+			continue // the watchdog itself
+		}
+		if strings.Contains(hdr, "[running") || strings.Contains(hdr, "[runnable") || strings.Contains(hdr, "[syscall") {
+			return false
+		}
+	}
+	return true
+}
+
+func c11sGuard(inner func(op []string) string) func(op []string) string {
+	return func(op []string) string {
+		if c11sWedged.Load() {
+			return "stuck"
+		}
+		ch := make(chan string, 1)
+		go func() {
+			defer func() {
+				if p := recover(); p != nil {
+					ch <- "PANIC " + strings.ReplaceAll(fmt.Sprint(p), "\n", " ")
+				}
+			}()
+			ch <- inner(op)
+		}()
+		grace := time.After(1500 * time.Millisecond)
+		hard := time.After(60 * time.Second)
+		select {
+		case o := <-ch:
+			return o
+		case <-grace:
+		}
+		parked := 0
+		for {
+			select {
+			case o := <-ch:
+				return o
+			case <-hard:
+				c11sWedged.Store(true)
+				return "stuck"
+			case <-time.After(20 * time.Millisecond):
+				if c11sAllParked() {
+					parked++
+				} else {
+					parked = 0
+				}
+				if parked >= 8 {
+					c11sWedged.Store(true)
+					return "stuck"
+				}
+			}
+		}
+	}
+}
+
 func c11sGen(r *verifh.Rng) []verifh.Section {
 	var secs []verifh.Section
 	// scripted: every statement of the table, one row each, on its own inserter
@@ -170,6 +258,21 @@ func c11sGen(r *verifh.Rng) []verifh.Section {
 		for s := range c11sStmts {
 			ops = append(ops, fmt.Sprintf("new %d %d", s, s), fmt.Sprintf("ins %d 2", s), fmt.Sprintf("wait %d", s))
 		}
+		secs = append(secs, verifh.Section{Cfg: fmt.Sprintf("kind=sqlx max=%d hook=0", maxBulkRows), Ops: ops})
+	}
+	// scripted: every outcome of Exec (ok / error / panic) with every kind of result handler (none / counting / panicking
+	// / nil again), a partial batch and a threshold batch each; a rejected Insert in between
+	{
+		ops := []string{"new 0 1"}
+		for _, h := range []string{"", "hand 0", "handp 0", "unhand 0"} {
+			if h != "" {
+				ops = append(ops, h)
+			}
+			for m := 0; m < 3; m++ {
+				ops = append(ops, fmt.Sprintf("mode 0 %d", m), "ins 0 2", "insx 0", "flush 0", fmt.Sprintf("ins 0 %d", maxBulkRows+1), "wait 0")
+			}
+		}
+		ops = append(ops, "mode 0 0", "ins 0 1", "wait 0")
 		secs = append(secs, verifh.Section{Cfg: fmt.Sprintf("kind=sqlx max=%d hook=0", maxBulkRows), Ops: ops})
 	}
 	// scripted + random: a batch that has been handed out but not yet joined into SQL, rows inserted meanwhile
@@ -199,7 +302,7 @@ func c11sGen(r *verifh.Rng) []verifh.Section {
 		}
 		for j := r.Range(4, 16); j > 0; j-- {
 			k := r.Intn(ninst)
-			switch x := r.Intn(12); {
+			switch x := r.Intn(14); {
 			case x < 5:
 				// aim at the threshold: one below, exactly, one above, far above, small
 				c := r.Pick(1, 2, 7, 999, 1000, 1001, 1999, 2000, 2500, maxBulkRows-pending[k]-1, maxBulkRows-pending[k], maxBulkRows-pending[k]+1)
@@ -217,8 +320,19 @@ func c11sGen(r *verifh.Rng) []verifh.Section {
 			case x < 9:
 				ops = append(ops, fmt.Sprintf("stmt %d %d", k, r.Pick(0, 1, 1, 2, 3, 3, 4, 6)))
 				pending[k] = 0
-			case x < 10:
-				ops = append(ops, fmt.Sprintf("hand %d", k))
+			case x < 10 || x >= 12:
+				switch r.Intn(6) {
+				case 0:
+					ops = append(ops, fmt.Sprintf("handp %d", k))
+				case 1:
+					ops = append(ops, fmt.Sprintf("unhand %d", k))
+				case 2, 3:
+					ops = append(ops, fmt.Sprintf("mode %d %d", k, r.Pick(0, 1, 1, 2, 2)))
+				case 4:
+					ops = append(ops, fmt.Sprintf("insx %d", k))
+				default:
+					ops = append(ops, fmt.Sprintf("hand %d", k))
+				}
 			case x < 11:
 				// a new inserter in the same slot (the old one is waited for first): state must not carry over
 				ops = append(ops, fmt.Sprintf("wait %d", k), fmt.Sprintf("new %d %d", k, r.Pick(0, 1, 3)))
@@ -291,6 +405,9 @@ func TestVerifC11Sqlx(t *testing.T) {
 						return
 					}
 					in.execs = append(in.execs, c11sExec{rows[0], fmt.Sprintf("x=%d|%s|%s|%s", c11sHash(query), c11sUS(pre), c11sRows(rows), c11sUS(suf))})
+					if in.mode == 2 {
+						panic(errors.New("c11 sqlx: Exec panics"))
+					}
 				}
 				bi, err := NewBulkInserter(conn, q)
 				if err != nil {
@@ -298,6 +415,7 @@ func TestVerifC11Sqlx(t *testing.T) {
 					return "err"
 				}
 				in.bi = bi
+				in.conn = conn
 				if hook {
 					bi.executor = executors.NewPeriodicalExecutor(flushInterval, &c11sHook{inner: bi.inserter, in: in})
 				}
@@ -378,18 +496,58 @@ func TestVerifC11Sqlx(t *testing.T) {
 			switch op[0] {
 			case "flush":
 				in.bi.Flush()
-				return "ok"
+				c := 0
+				in.bi.executor.Sync(func() { c = len(in.bi.inserter.values) })
+				return fmt.Sprintf("ok c=%d", c)
 			case "upd":
-				in.bi.UpdateOrDelete(func() {})
-				return "ok"
-			case "hand":
+				// what fn sees: the rows still pending in the inserter when the update / delete runs
+				at := -1
+				in.bi.UpdateOrDelete(func() {
+					in.bi.executor.Sync(func() { at = len(in.bi.inserter.values) })
+				})
+				return fmt.Sprintf("ok c=%d", at)
+			case "hand", "handp":
 				// batches already handed to the flusher read dbInserter.resultHandler when Exec returns: let them finish
 				in.bi.executor.Wait()
-				in.bi.SetResultHandler(func(_ sql.Result, _ error) {
+				pan := op[0] == "handp"
+				in.bi.SetResultHandler(func(_ sql.Result, err error) {
 					in.mu.Lock()
 					in.res++
+					if err != nil {
+						in.rerr++
+					}
 					in.mu.Unlock()
+					if pan {
+						panic(errors.New("c11 sqlx: the result handler panics"))
+					}
 				})
+				return "ok"
+			case "unhand":
+				in.bi.executor.Wait()
+				in.bi.SetResultHandler(nil)
+				return "ok"
+			case "mode":
+				if len(op) != 3 {
+					return "bad-op"
+				}
+				m := verifh.Atoi(op[2])
+				if m < 0 || m > 2 {
+					return "bad-op"
+				}
+				in.bi.executor.Wait()
+				in.mu.Lock()
+				in.mode = m
+				in.mu.Unlock()
+				in.conn.execErr = nil
+				if m == 1 {
+					in.conn.execErr = errors.New("c11 sqlx: Exec fails")
+				}
+				return "ok"
+			case "insx":
+				if err := in.bi.Insert(next, next); err != nil {
+					return "err"
+				}
+				next++
 				return "ok"
 			case "stmt":
 				q, ok := stmtOf(verifh.Atoi(op[2]))
@@ -412,20 +570,23 @@ func TestVerifC11Sqlx(t *testing.T) {
 					toks = append(toks, e.tok)
 				}
 				in.execs = nil
-				toks = append(toks, fmt.Sprintf("res=%d bad=%d", in.res, in.bad))
+				toks = append(toks, fmt.Sprintf("res=%d rerr=%d bad=%d", in.res, in.rerr, in.bad))
 				return strings.Join(toks, " ")
 			}
 			return "bad-op"
 		}
-		return step, func() {
-			for _, in := range insts {
-				if in != nil && in.bi != nil {
-					if in.gate != nil {
-						close(in.gate)
+		return c11sGuard(step), func() {
+			c11sGuard(func([]string) string {
+				for _, in := range insts {
+					if in != nil && in.bi != nil {
+						if in.gate != nil {
+							close(in.gate)
+						}
+						in.bi.executor.Wait()
 					}
-					in.bi.executor.Wait()
 				}
-			}
+				return ""
+			})(nil)
 		}
 	})
 }
